@@ -3139,7 +3139,7 @@ func endsWithSeparator(v ssa.Value, d int) bool {
 	if v == nil || d > 4 {
 		return false
 	}
-	switch x := strip(v).(type) {
+	switch x := resolve(v).(type) {
 	case *ssa.BinOp:
 		if x.Op != token.ADD {
 			return false
